@@ -170,6 +170,13 @@ def units(tier):
             continue
         us.append(Unit('C02/D/AndersonCD.path[%s,intercept=%s,sparse=%s]' % (pen, fi, sparse), u_path_vi,
                        dict(penalty=pen, X='corr32', fit_intercept=fi, sparse=sparse), wall_s=150, timeout_ms=8000))
+    # MultiTaskBCD with one task (multi-task lasso = lasso): a tolerance stop certifies the returned point (for the convex
+    # L2_1 penalty the certificate of C01 is the variational inequality), dense and CSC, cold and warm starts
+    from checks import steps as STP
+    for fi, sp, warm in itertools.product((False, True), (False, True), (False, True)):
+        us.append(Unit('C02/D/MultiTaskBCD[T=1,intercept=%s,sparse=%s,warm=%s]' % (fi, sp, warm), STP.u_multitask_run,
+                       dict(X='corr32', fit_intercept=fi, sparse=sp, warm=warm, budget=(2, 1), want=('certificate',)),
+                       wall_s=90, timeout_ms=8000))
     for pen, X, greedy in itertools.product(['L1', 'L1+', 'WeightedL1', 'IndicatorBox'], ['corr32', 'gen32'], (False, True)):
         if q and dh((pen, X, greedy)) % 2:
             continue
